@@ -8,10 +8,13 @@ lost="subscribe/get/new request outstanding on a resource, then an unsubscribe f
 add("C07", r"^unanswered-after-unsubscribe:", lost)
 for pp in ["C11","C13","C19"]:
     add(pp, r"^C07:unanswered-after-unsubscribe:", lost)
-dele="delete event for a resource that has a get/subscribe request pending or is referenced/subscribed again afterwards: the deleted subscription is reused with stale data, temporary counts are revoked with an unsubscribe event, and the cache use count is released twice"
+dele="delete event (sent by the service, or derived from a system.notFound answer to a query request or re-fetch) for a resource that has a get/subscribe request pending or is referenced/subscribed again afterwards: the deleted subscription is reused with stale data, temporary counts are revoked with an unsubscribe event, and the cache use count is released twice"
 for pp in ["C01","C02","C08","C09"]:
     add(pp, r"^after-delete:", dele)
-add("C11", r"^C09:after-delete:", dele)
+add("C11", r"^C0[79]:after-delete:", dele)
+add("C07", r"^after-delete:", dele)
+add("C13", r"^C0[137]:after-delete:", dele)
+add("C19", r"^C0[167]:after-delete:", dele)
 uns="a resource whose last sent parent goes away while a still loading parent references it is reset to unsent (Subscription.Unsend) and later sent again from the snapshot taken when it was first loaded: events processed in between are missing from that snapshot (stale client copy) and events arriving while it is unsent are sent to a client that no longer holds it"
 for pp in ["C01","C02","C03"]:
     add(pp, r"^after-unsend:", uns)
